@@ -49,6 +49,53 @@ theorem C16_convert_refines_spec (cs nslices : Nat) (hcs : 0 < cs) (hn : 0 < nsl
     convert cs rows order i = (rows[i]?).map rowOf := by
   exact convert_spec cs nslices hcs hn rows hrows order hperm i
 
+/-- lossless: distinct `.bed` genotypes are stored as distinct pairs -/
+theorem C16_call_injective (g h : G) (e : G.call g = G.call h) : g = h := by
+  cases g <;> cases h <;> first | rfl | (exfalso; revert e; decide)
+
+theorem map_call_inj : ∀ (gs hs : List G), gs.map G.call = hs.map G.call → gs = hs
+  | [], [], _ => rfl
+  | [], _ :: _, e => by simp at e
+  | _ :: _, [], e => by simp at e
+  | g :: gs, h :: hs, e => by
+    simp only [List.map_cons, List.cons.injEq] at e
+    rw [C16_call_injective g h e.1, map_call_inj gs hs e.2]
+
+/-- … hence distinct variant rows give distinct stored rows: nothing is conflated -/
+theorem C16_rows_injective (gs hs : List G) (e : rowOf gs = rowOf hs) : gs = hs :=
+  map_call_inj gs hs (congrArg CallRow.gt e)
+
+/-- shape of the `.bed` row the model reads: `⌈n/4⌉` bytes, each a byte, whatever the padding bits -/
+theorem C16_encodeRow_bytes (pad : Nat) (gs : List G) :
+    (encodeRow pad gs).length = ceilDiv gs.length 4 ∧ ∀ b ∈ encodeRow pad gs, b < 256 := by
+  fun_induction encodeRow pad gs with
+  | case1 => simp [ceilDiv]
+  | case2 a b c d rest ih =>
+    have ha := G.code_lt a; have hb := G.code_lt b; have hc := G.code_lt c; have hd := G.code_lt d
+    refine ⟨?_, ?_⟩
+    · simp only [List.length_cons, ih.1, ceilDiv]; omega
+    · intro x hx
+      simp only [List.mem_cons] at hx
+      rcases hx with rfl | hx
+      · simp only [encodeByte]; omega
+      · exact ih.2 x hx
+  | case3 gs h1 h2 =>
+    match gs, h1, h2 with
+    | [], h1, _ => exact absurd rfl h1
+    | [a], _, _ =>
+      have ha := G.code_lt a
+      refine ⟨by simp [ceilDiv], ?_⟩
+      intro x hx; simp only [List.mem_singleton] at hx; subst hx; simp only [encodeByte]; omega
+    | [a, b], _, _ =>
+      have ha := G.code_lt a; have hb := G.code_lt b
+      refine ⟨by simp [ceilDiv], ?_⟩
+      intro x hx; simp only [List.mem_singleton] at hx; subst hx; simp only [encodeByte]; omega
+    | [a, b, c], _, _ =>
+      have ha := G.code_lt a; have hb := G.code_lt b; have hc := G.code_lt c
+      refine ⟨by simp [ceilDiv], ?_⟩
+      intro x hx; simp only [List.mem_singleton] at hx; subst hx; simp only [encodeByte]; omega
+    | a :: b :: c :: d :: rest, _, h2 => exact absurd rfl (h2 a b c d rest)
+
 example : decodeRow 5 (encodeRow 0 [.hom1, .het, .hom2, .missing, .het]) = [.hom1, .het, .hom2, .missing, .het] := by
   decide
 
